@@ -373,6 +373,44 @@ func run(repo string) (string, error) {
 		fmt.Fprintf(&b, "  %s%s\n", ex.LeanStr(s), sep)
 	}
 	b.WriteString("]\n\n")
+	// the configuration setters and what Connect rebuilds the transactors from
+	for _, nm := range []string{"SetGasLimit", "SetGasPrice"} {
+		fd := ex.FuncDecl(f, "ethAdaptor", nm)
+		if fd == nil {
+			return "", fmt.Errorf("%s not found in onchain/eth_set.go", nm)
+		}
+		fmt.Fprintf(&b, "/-- pre-order skeleton of %s -/\ndef skeleton%s : List String := %s\n\n", nm, nm, strList(skeleton(fset, fd.Body)))
+	}
+	fsP, fP, err := ex.Parse(filepath.Join(repo, "onchain", "eth_proxy.go"))
+	if err != nil {
+		return "", err
+	}
+	var auth []string
+	if fd := ex.FuncDecl(fP, "ethAdaptor", "Connect"); fd != nil {
+		for _, l := range skeleton(fsP, fd.Body) {
+			if strings.Contains(l, "auth") || strings.Contains(l, "e.gasPrice") || strings.Contains(l, "e.gasLimit") {
+				auth = append(auth, l)
+			}
+		}
+	}
+	fmt.Fprintf(&b, "/-- every statement of Connect (eth_proxy.go) that mentions the transactor `auth` or the gas fields, in order (rpc endpoints first, then websocket) -/\ndef connectAuth : List String := %s\n\n", strList(auth))
+	var transactor []string
+	for _, l := range auth {
+		t := l[strings.Index(l, " ")+1:]
+		if !strings.HasPrefix(t, "e.") {
+			transactor = append(transactor, t)
+		}
+	}
+	fmt.Fprintf(&b, "/-- of those, the statements that build the transactor (depth stripped) -/\ndef connectTransactor : List String := %s\n\n", strList(transactor))
+	var newAd []string
+	if fd := ex.FuncDecl(fP, "", "NewEthAdaptor"); fd != nil {
+		for _, l := range skeleton(fsP, fd.Body) {
+			if strings.Contains(l, "adaptor.gas") || strings.Contains(l, "adaptor.chainID") || strings.Contains(l, "adaptor.key") || strings.Contains(l, "chainID") {
+				newAd = append(newAd, l)
+			}
+		}
+	}
+	fmt.Fprintf(&b, "/-- where NewEthAdaptor stores the configuration -/\ndef newAdaptorConfig : List String := %s\n\n", strList(newAd))
 	b.WriteString("structure Closure where\n  method : String\n  prep : List String\n  results : String\n  call : String\n  assigns : List (String × String)\n  last : String\n  deriving DecidableEq, Repr\n\n")
 	b.WriteString("/-- the request closures `f := func(ctx) (tx, err) {…}` of the adaptor's methods -/\ndef closures : List Closure := [\n")
 	for i, c := range cls {
